@@ -82,7 +82,15 @@ def edit(d, rnd, derived_keys=False):
     d = copy.deepcopy(d)
     kind = rnd.choice(['rename_attr', 'retype_attr', 'reorder_attrs', 'add_attr', 'toggle', 'toggle', 'phrase', 'move_class',
                        'add_enumerator', 'reorder_enumerators', 'add_udt', 'retype_udt', 'to_derived', 'swap_form_part',
-                       'rename_class', 'drop_id', 'add_id'])
+                       'rename_class', 'drop_id', 'add_id', 'add_twin_types'])
+    # (types that share their name with another type are never referred to by name)
+    plain = lambda us: [u['n'] for u in us if not u['n'].startswith('Twin')]
+    if kind == 'add_twin_types':
+        # an enumeration and a user-defined type with one name, in any two places: both are declared
+        n = 'Twin%d' % sum(1 for u in d['enums'] if u['n'].startswith('Twin'))
+        d['enums'].append({'n': n, 'items': ['LOW', 'HIGH'], 'comp': rnd.choice(d['comps'] + [''])})
+        d['udts'].append({'n': n, 'base': 'integer', 'comp': rnd.choice(d['comps'] + [''])})
+        return d, kind
     if kind == 'rename_attr':
         ci, ai = rnd.choice(_attr_sites(d))
         c = d['classes'][ci]
@@ -108,7 +116,7 @@ def edit(d, rnd, derived_keys=False):
         sites = [(ci, ai) for ci, ai in _attr_sites(d) if d['classes'][ci]['attrs'][ai]['k'] != 'ref']
         ci, ai = rnd.choice(sites)
         types = ['boolean', 'integer', 'real', 'string', 'unique_id', 'void', 'inst_ref<Object>'] + \
-            [u['n'] for u in d['udts']] + [u['n'] for u in d['enums']]
+            plain(d['udts']) + plain(d['enums'])
         if _is_referred(d, d['classes'][ci]['kl'], d['classes'][ci]['attrs'][ai]['n']):
             # an attribute that relationships refer to keeps a supported type (a key without a type has no meaning)
             types = ['integer', 'string', 'unique_id', 'real']
@@ -179,14 +187,14 @@ def edit(d, rnd, derived_keys=False):
         u['items'][i], u['items'][j] = u['items'][j], u['items'][i]
         return d, kind
     if kind == 'add_udt':
-        names = ['boolean', 'integer', 'real', 'string'] + [u['n'] for u in d['udts']] + [u['n'] for u in d['enums']]
+        names = ['boolean', 'integer', 'real', 'string'] + plain(d['udts']) + plain(d['enums'])
         d['udts'].append({'n': 'UT%d' % len(d['udts']), 'base': rnd.choice(names), 'comp': rnd.choice(d['comps'] + [''])})
         return d, kind
     if kind == 'retype_udt':
         if not d['udts']:
             return None, kind
         k = rnd.randrange(len(d['udts']))
-        earlier = ['boolean', 'integer', 'real', 'string', 'void'] + [u['n'] for u in d['udts'][:k]] + [u['n'] for u in d['enums']]
+        earlier = ['boolean', 'integer', 'real', 'string', 'void'] + plain(d['udts'][:k]) + plain(d['enums'])
         used_by_keys = any(a['ty'] == d['udts'][k]['n'] and _is_referred(d, c['kl'], a['n'])
                            for c in d['classes'] for a in c['attrs'])
         if used_by_keys:
